@@ -5,11 +5,21 @@ def A(name, variant, *args, **kw):
     d.update(kw)
     return d
 
+# ASan keeps freed blocks in quarantine, so a deleted type's block would never be handed to the next new(Type) by the
+# allocator itself; with the quarantine off it is (only the force=0 instance depends on that)
+NOQUARANTINE = {'ASAN_OPTIONS': 'quarantine_size_mb=0:thread_local_quarantine_size_kb=0'}
+
 def insts():
     out = []
     for part in ('own', 'static', 'embedded', 'views', 'stackops'):
         out.append(A(part, 'base', 'part=' + part))
         out.append(A(part + '-asan', 'asan', 'part=' + part))
+    # run-time types of different sizes following one another at one address: the freed type block is handed back by the
+    # interposer (force=1, default) or left to the allocator (force=0; histories that did not get the address are not counted)
+    out.append(A('recycle', 'base', 'part=recycle'))
+    out.append(A('recycle-asan', 'asan', 'part=recycle'))
+    out.append(A('recycle-natural', 'base', 'part=recycle', 'force=0'))
+    out.append(A('recycle-natural-asan', 'asan', 'part=recycle', 'force=0', env=NOQUARANTINE))
     return out
 
 CHECK = {
@@ -41,10 +51,35 @@ CHECK = {
            'Whether copy() of a kind of original works at all is asked once per kind in a forked child (a failed copy leaves garbage whose '
            'destructor raises inside a sweep). '
            'Collector-managed heap objects additionally: del / del_root between stop(gc) and start(gc) in a forked child - a freed block must not '
-           'stay registered, a registered block must not have been freed'),
+           'stay registered, a registered block must not have been freed. '
+           'part=recycle ("size(type) bytes of it are usable" for run-time types that follow one another at ONE address): chain = a run-time '
+           'type T1 of size s1 is created, objects of it are made through entry point e1 (all=1: then through every other one) and released, '
+           'T1 is deleted, T2 of size s2 != s1 is created on the block T1 had, its first object comes from entry point e2, then one object from '
+           'every other entry point; optionally a third type T3 (s3 != s2) on the same block; live = A and B alive, A deleted, C of another size on '
+           'A\'s block while B lives on, objects in the order C | B C | C B C; swap = A and B deleted in either order, C and D created on their '
+           'blocks with the sizes exchanged (first request answered with the most / least recently freed block), the last object before made of A '
+           'or B, the first after of C or D. Sizes from {0, 1, 8, 24, 512}; entry points alloc_raw alloc alloc_root new_raw new new_root copy (of '
+           'a stack-resident original; not for size 0, where the library refuses) and a stack-resident object (header_init on a buffer); type kinds: '
+           'plain, size reported by a Size instance (recorded size differs), with a New instance (constructor fills all size(type) bytes); type '
+           'objects made with new_raw / new / new_root. Per object: type_of is the type it was made of, heap/stack tag, size(type) is the size '
+           'the type was created with, the byte count the library REQUESTED from calloc/malloc for the block (link-time interposition, ring of '
+           'the last 512 requests) covers sizeof(struct Header) + size(type), all size(type) bytes written with a pattern and read back (ASan '
+           'judges the accesses too), registered with the collector iff the entry point says so, released through the matching call. The block of '
+           'a deleted type is handed to the next new(Type) by the interposer (a stash answering the next request of the same byte count) or, '
+           'in the force=0 instances, by the allocator itself (ASan: quarantine off); a history counts as executed only if a new type really '
+           'received the address of a deleted type of another size (recycle_reached / recycle_not_reached in the evidence). In the gcc build of '
+           'this part every block is 1024 bytes longer than requested so that an overrun of a block requested too small cannot destroy the '
+           'allocator and end the exploration (the verdict comes from the requested count); the ASan build has no slack. nontrivial there = '
+           'distinct (family, type kind, entry points, grow/shrink) combinations reached'),
   'bounds': {
-    'quick': 'containers of length 1 and 3 (first/last position), views over Array and List of length 1 and 3, 30 static objects, 21 types, 23 operations; stack-tuple grid with source lengths 0,1,3; gcc and clang ASan+UBSan builds of the whole grid',
-    'thorough': 'containers of length 1..8 at every position, five ways of building the container, views over Array and List of length 1..6 at every position; stack-tuple grid with source lengths 0..3; gcc and ASan+UBSan builds of the whole grid',
+    'quick': 'containers of length 1 and 3 (first/last position), views over Array and List of length 1 and 3, 30 static objects, 21 types, 23 operations; stack-tuple grid with source lengths 0,1,3; gcc and clang ASan+UBSan builds of the whole grid; recycled type addresses: 3 type kinds x '
+             '{2 in a row: 3 ways of managing the type x 20 ordered size pairs x 8 x 8 entry points x {first only, all}; 3 in a row: 80 size triples x 8 x 8 '
+             'entry points, third entry point and type management rotating; live neighbour: 20 size pairs x 2 neighbour sizes x 8 x 8 entry points x 3 orders '
+             '(half of them for the non-plain kinds); swap: 20 size pairs x 16 (delete order, hand-back order, last type before, first type after) x 8 x 2 '
+             'entry points} = 69120 histories, 934752 objects, forced and allocator-chosen reuse, gcc and ASan+UBSan',
+    'thorough': 'containers of length 1..8 at every position, five ways of building the container, views over Array and List of length 1..6 at every position; stack-tuple grid with source lengths 0..3; gcc and ASan+UBSan builds of the whole grid; recycled type addresses as quick with all 8 entry points for the '
+                'third type and all 3 ways of managing the types in the 3-in-a-row family, no thinning of the live-neighbour family and all 8 x 8 entry points in the '
+                'swap family (476160 histories, 7.7e6 objects)',
   },
   'assumptions': [
     'default build (CELLO_ALLOC_CHECK and CELLO_MAGIC_CHECK on); the allocation class is read from the public struct Header',
@@ -52,6 +87,8 @@ CHECK = {
     'free/realloc calls made inside libc (stdio) are not intercepted; only calls from the library and the harness are',
     'stack Array/List/Table/Tree/Mutex do not exist (their structs are private), so the $ column omits them',
     'assign(tuple, x) with x a String or an Int is not executed: the library runs foreach on an object without Iter and dereferences NULL (heap tuples too; reported as a C12 candidate); rem on a stack String is run on a writable buffer only (on a string literal it writes into read-only memory; reported as a candidate)',
+    'recycled type addresses: objects of a type are all released before the type is deleted (an object that outlives its type is the caller\'s error); '
+    'types with an Alloc instance of their own are not explored there (the library does not request their blocks)',
     'gcc/clang, glibc, the linker --wrap feature and the sanitizer run-times are trusted',
   ],
   'instances': {
